@@ -190,7 +190,7 @@ def c20_csv(repo: str, verif: str, tier: str) -> dict:
     """faithful hardware-model streams: marker k at tick (k+1)*2^23; edges at chosen ticks incl. the half-wrap boundaries"""
     t0 = time.time()
     target = "alpha-g-chronobox-timestamps (real binary) on synthetic MIDAS files"
-    bound = "hardware-model streams of 9 half wraps with edges at / next to every half-wrap boundary, with and without scaler blocks, cut into banks of irregular sizes over 2 files; one stream without closing marker; six single faults (truncated entry, truncated scaler block, no counter-0 marker, two foreign words, counter-0 marker with top bit set) that must fail without a CSV; a dropped and a duplicated marker; two boards interleaved"
+    bound = "hardware-model streams of 9 half wraps with edges at / next to every half-wrap boundary, with and without scaler blocks, cut into banks of irregular sizes over 2 files; one stream without closing marker; nine single faults (truncated entry, truncated scaler block, no counter-0 marker, two foreign words, counter-0 marker with top bit set, three scaler tags with a wrong count field) that must fail without a CSV; a dropped and a duplicated marker; two boards interleaved"
     bins, err = build(repo, verif, ["alpha-g-chronobox-timestamps"])
     if bins is None:
         return {"name": "c20_csv", "status": "undecided", "reason": "binary does not build: " + err, "target": target, "bound": bound}
@@ -266,6 +266,11 @@ def c20_csv(repo: str, verif: str, tier: str) -> dict:
             ("word that is neither timestamp, marker nor scaler tag", good()[:8] + struct.pack("<I", 0x7F000010) + good()[8:]),
             ("channel number 59 (not a timestamp word)", good()[:8] + struct.pack("<I", ((0x80 | 59) << 24) | 0x10) + good()[8:]),
             ("counter-0 marker with its top bit set", struct.pack("<I", 0xFF000000 | (1 << 23)) + cb_ts(1, H + 10) + cb_marker(1)),
+            # a scaler tag whose count field is not 60 is not a scaler block, whatever follows it
+            ("scaler tag with a flipped count bit (0xFE00003D), followed by a complete block of data and more entries",
+             good()[:8] + struct.pack("<I", 0xFE00003D) + bytes(range(240)) + cb_ts(7, 2 * H + 20) + good()[8:]),
+            ("stray word 0xFE000040 followed by 70 timestamps", good()[:8] + struct.pack("<I", 0xFE000040) + b"".join(cb_ts(i % 59, 2 * H + 2 * i) for i in range(70)) + good()[8:]),
+            ("scaler tag with count 59 followed by 61 words", good()[:8] + struct.pack("<I", 0xFE00003B) + bytes(244) + good()[8:]),
         ]
         for what, words in faults:
             p = os.path.join(work, "run00043sub000.mid")
